@@ -343,8 +343,8 @@ theorem Step.db {c c' : Cfg} {s : Nat} {evs : List Ev} (h : Step c s c' evs) (hc
     returns the current db value from its second block -/
 theorem Step.ret_get {c c' : Cfg} {s : Nat} {evs : List Ev} (h : Step c s c' evs) {t : Nat} {k : Bytes}
     {r : Option Bytes} (he : Ev.ret t (.get k) r ∈ evs) :
-    t = s ∧ ((Ev.call t (.get k) ∈ evs ∧ r = c.p.abs k) ∨
-             (∃ th, c.threads[t]? = some th ∧ th.pc = .getDb k ∧ r = alookup k c.p.db)) := by
+    t = s ∧ ((evs = [.call t (.get k), .ret t (.get k) r] ∧ r = c.p.abs k) ∨
+             (evs = [.ret t (.get k) r] ∧ ∃ th, c.threads[t]? = some th ∧ th.pc = .getDb k ∧ r = alookup k c.p.db)) := by
   cases h with
   | timer _ => simp at he
   | skip => simp at he
@@ -356,22 +356,22 @@ theorem Step.ret_get {c c' : Cfg} {s : Nat} {evs : List Ev} (h : Step c s c' evs
   | retDb th k' h1 h2 hpc =>
     simp only [List.mem_singleton, Ev.ret.injEq, Op.get.injEq] at he
     obtain ⟨hts, hk, hr⟩ := he
-    subst hts hk
-    exact ⟨rfl, Or.inr ⟨th, h1, hpc, hr⟩⟩
+    subst hts hk hr
+    exact ⟨rfl, Or.inr ⟨rfl, th, h1, hpc, rfl⟩⟩
   | put th k' v rest h1 h2 hpc htodo => simp at he
   | rm th k' rest h1 h2 hpc htodo => simp at he
   | getHit th k' rest r' h1 h2 hpc htodo hr =>
     simp only [List.mem_cons, List.mem_nil_iff, or_false, Ev.ret.injEq, Op.get.injEq, reduceCtorEq, false_or] at he
     obtain ⟨hts, hk, hr'⟩ := he
     subst hts hk hr'
-    exact ⟨rfl, Or.inl ⟨by simp, batchRead_some _ _ _ hr⟩⟩
+    exact ⟨rfl, Or.inl ⟨rfl, batchRead_some _ _ _ hr⟩⟩
   | getMiss th k' rest h1 h2 hpc htodo hr => simp at he
 
 /-- a thread found between the two blocks of a `get k`: either the batch read missed in this very step, or the thread
     was there before and the step belongs to somebody else -/
 theorem Step.at_getDb {c c' : Cfg} {s : Nat} {evs : List Ev} (h : Step c s c' evs) {t : Nat} {th' : Thread}
     {k : Bytes} (h1' : c'.threads[t]? = some th') (hpc' : th'.pc = .getDb k) :
-    (t = s ∧ Ev.call t (.get k) ∈ evs ∧ c'.p = c.p ∧ c.p.abs k = alookup k c.p.db) ∨
+    (t = s ∧ evs = [.call t (.get k)] ∧ c'.p = c.p ∧ c.p.abs k = alookup k c.p.db) ∨
     (c.threads[t]? = some th' ∧ ∀ e ∈ evs, e.thread ≠ t) := by
   have hlt : c.threads[t]? = some th' → t ≠ c.threads.length := by
     intro h e
@@ -425,7 +425,7 @@ theorem Step.at_getDb {c c' : Cfg} {s : Nat} {evs : List Ev} (h : Step c s c' ev
         subst h1'
         simp only [Pc.getDb.injEq] at hpc'
         subst hpc'
-        exact Or.inl ⟨rfl, by simp, rfl, batchRead_none _ _ hr⟩
+        exact Or.inl ⟨rfl, rfl, rfl, batchRead_none _ _ hr⟩
       · simp at h1'
     · dsimp only at h1'
       rw [List.getElem?_set_ne hts] at h1'
@@ -461,6 +461,11 @@ theorem runSched_cfgs (sched : List Nat) : ∀ c : Cfg,
     rw [ih, List.range_succ_eq_map (n := rest.length + 1)]
     simp [cfgAt, Function.comp_def]
 
+theorem runSched_cfgs_get (c : Cfg) (sched : List Nat) (m : Nat) (h : m ≤ sched.length) :
+    (runSched c sched).2[m]? = some (cfgAt c sched m) := by
+  rw [runSched_cfgs, List.getElem?_map, List.getElem?_range (by omega)]
+  rfl
+
 theorem runSched_hist (sched : List Nat) : ∀ c : Cfg,
     (runSched c sched).1 = (List.range sched.length).flatMap (evsAt c sched) := by
   induction sched with
@@ -469,7 +474,7 @@ theorem runSched_hist (sched : List Nat) : ∀ c : Cfg,
     intro c
     simp only [runSched, List.length_cons]
     rw [ih, List.range_succ_eq_map (n := rest.length)]
-    simp [evsAt, List.flatMap_map, Function.comp_def]
+    simp [evsAt, List.flatMap_map]
 
 /-- consecutive configurations are related by `Cfg.step`, which emits `evsAt` -/
 theorem cfgAt_succ (sched : List Nat) : ∀ (c : Cfg) (m : Nat) (s : Nat), sched[m]? = some s →
@@ -504,9 +509,38 @@ theorem Inv.cfgAt {c : Cfg} (hi : Inv c) (sched : List Nat) (m : Nat) : Inv (cfg
     | zero => exact hi
     | succ m => exact ih (hi.step t) m
 
-/-- thread `t` emits nothing at the steps strictly between `i` and `j` -/
-def Quiet (c : Cfg) (sched : List Nat) (t i j : Nat) : Prop :=
-  ∀ j', i < j' → j' < j → ∀ e ∈ evsAt c sched j', e.thread ≠ t
+/-- **call and return of one `get`.**  Step `i` emitted the call and step `j` the return (with result `r`) of one and
+    the same `get k` of thread `t`: either the get was answered by the batch, in which case one block emitted both events
+    (`i = j`), or step `i` emitted just the call (the batch read missed), step `j > i` just the return (the db read), and
+    thread `t` emitted nothing in between. -/
+def CallRet (c : Cfg) (sched : List Nat) (t : Nat) (k : Bytes) (r : Option Bytes) (i j : Nat) : Prop :=
+  (i = j ∧ evsAt c sched j = [.call t (.get k), .ret t (.get k) r]) ∨
+  (i < j ∧ evsAt c sched i = [.call t (.get k)] ∧ evsAt c sched j = [.ret t (.get k) r] ∧
+    ∀ j', i < j' → j' < j → ∀ e ∈ evsAt c sched j', e.thread ≠ t)
+
+theorem CallRet.le {c : Cfg} {sched : List Nat} {t : Nat} {k : Bytes} {r : Option Bytes} {i j : Nat}
+    (h : CallRet c sched t k r i j) : i ≤ j := by
+  rcases h with ⟨h, _⟩ | ⟨h, _⟩ <;> omega
+
+theorem CallRet.call_mem {c : Cfg} {sched : List Nat} {t : Nat} {k : Bytes} {r : Option Bytes} {i j : Nat}
+    (h : CallRet c sched t k r i j) : Ev.call t (.get k) ∈ evsAt c sched i := by
+  rcases h with ⟨rfl, h⟩ | ⟨_, h, _⟩ <;> rw [h] <;> simp
+
+theorem CallRet.ret_mem {c : Cfg} {sched : List Nat} {t : Nat} {k : Bytes} {r : Option Bytes} {i j : Nat}
+    (h : CallRet c sched t k r i j) : Ev.ret t (.get k) r ∈ evsAt c sched j := by
+  rcases h with ⟨_, h⟩ | ⟨_, _, h, _⟩ <;> rw [h] <;> simp
+
+theorem CallRet.shift {c : Cfg} {s : Nat} {rest : List Nat} {t : Nat} {k : Bytes} {r : Option Bytes} {i j : Nat}
+    (h : CallRet (c.step s).1 rest t k r i j) : CallRet c (s :: rest) t k r (i + 1) (j + 1) := by
+  rcases h with ⟨rfl, h⟩ | ⟨hij, h1, h2, hq⟩
+  · exact Or.inl ⟨rfl, by simpa [evsAt] using h⟩
+  · refine Or.inr ⟨by omega, by simpa [evsAt] using h1, by simpa [evsAt] using h2, ?_⟩
+    intro j' h1' h2' e he
+    cases j' with
+    | zero => omega
+    | succ j' =>
+      simp only [evsAt] at he
+      exact hq j' (by omega) (by omega) e he
 
 /-! ## (B) the window theorem -/
 
@@ -514,9 +548,8 @@ def Quiet (c : Cfg) (sched : List Nat) (t i j : Nat) : Prop :=
     called inside this run, or was already between its two blocks at the start -/
 theorem window_gen (t : Nat) (k : Bytes) (r : Option Bytes) (sched : List Nat) :
     ∀ (c : Cfg) (j : Nat), Inv c → Ev.ret t (.get k) r ∈ evsAt c sched j →
-      (∃ i m, i ≤ m ∧ m ≤ j ∧ Ev.call t (.get k) ∈ evsAt c sched i ∧ Quiet c sched t i j ∧
-          r = (cfgAt c sched m).abs k) ∨
-      ((∃ th, c.threads[t]? = some th ∧ th.pc = .getDb k) ∧
+      (∃ i m, i ≤ m ∧ m ≤ j ∧ CallRet c sched t k r i j ∧ r = (cfgAt c sched m).abs k) ∨
+      ((∃ th, c.threads[t]? = some th ∧ th.pc = .getDb k) ∧ evsAt c sched j = [.ret t (.get k) r] ∧
         (∀ j', j' < j → ∀ e ∈ evsAt c sched j', e.thread ≠ t) ∧
         (r = alookup k c.p.db ∨ ∃ m, m ≤ j ∧ r = (cfgAt c sched m).abs k)) := by
   induction sched with
@@ -528,29 +561,23 @@ theorem window_gen (t : Nat) (k : Bytes) (r : Option Bytes) (sched : List Nat) :
     cases j with
     | zero =>
       simp only [evsAt] at h
-      rcases hstep.ret_get h with ⟨hts, ⟨hcall, hr⟩ | ⟨th, hth, hpc, hr⟩⟩
+      rcases hstep.ret_get h with ⟨hts, ⟨hevs, hr⟩ | ⟨hevs, th, hth, hpc, hr⟩⟩
       · left
-        refine ⟨0, 0, Nat.le_refl _, Nat.le_refl _, ?_, ?_, ?_⟩
-        · simpa [evsAt] using hcall
-        · intro j' h1 h2; omega
+        refine ⟨0, 0, Nat.le_refl _, Nat.le_refl _, Or.inl ⟨rfl, ?_⟩, ?_⟩
+        · simpa [evsAt] using hevs
         · simpa [cfgAt, Cfg.abs] using hr
       · right
-        exact ⟨⟨th, hth, hpc⟩, by intro j' h1; omega, Or.inl hr⟩
+        exact ⟨⟨th, hth, hpc⟩, by simpa [evsAt] using hevs, by intro j' h1; omega, Or.inl hr⟩
     | succ j =>
       simp only [evsAt] at h
-      rcases ih _ j hinv' h with ⟨i, m, him, hmj, hcall, hq, hr⟩ | ⟨⟨th, hth, hpc⟩, hq, hr⟩
+      rcases ih _ j hinv' h with ⟨i, m, him, hmj, hcr, hr⟩ | ⟨⟨th, hth, hpc⟩, hevs, hq, hr⟩
       · left
-        refine ⟨i + 1, m + 1, by omega, by omega, by simpa [evsAt] using hcall, ?_, by simpa [cfgAt] using hr⟩
-        intro j' h1 h2 e he
-        cases j' with
-        | zero => omega
-        | succ j' =>
-          simp only [evsAt] at he
-          exact hq j' (by omega) (by omega) e he
+        exact ⟨i + 1, m + 1, by omega, by omega, hcr.shift, by simpa [cfgAt] using hr⟩
       · rcases hstep.at_getDb hth hpc with ⟨hts, hcall, hp, habs⟩ | ⟨hth0, hev⟩
         · -- the batch read missed at this very step
           left
-          have hq' : Quiet c (s :: rest) t 0 (j + 1) := by
+          have hcr : CallRet c (s :: rest) t k r 0 (j + 1) := by
+            refine Or.inr ⟨by omega, by simpa [evsAt] using hcall, by simpa [evsAt] using hevs, ?_⟩
             intro j' h1 h2 e he
             cases j' with
             | zero => omega
@@ -558,13 +585,13 @@ theorem window_gen (t : Nat) (k : Bytes) (r : Option Bytes) (sched : List Nat) :
               simp only [evsAt] at he
               exact hq j' (by omega) e he
           rcases hr with hr | ⟨m, hm, hr⟩
-          · refine ⟨0, 0, Nat.le_refl _, by omega, by simpa [evsAt] using hcall, hq', ?_⟩
+          · refine ⟨0, 0, Nat.le_refl _, by omega, hcr, ?_⟩
             rw [hr, hp, ← habs]
             simp [cfgAt, Cfg.abs]
-          · exact ⟨0, m + 1, by omega, by omega, by simpa [evsAt] using hcall, hq', by simpa [cfgAt] using hr⟩
+          · exact ⟨0, m + 1, by omega, by omega, hcr, by simpa [cfgAt] using hr⟩
         · -- the thread was already between its two blocks
           right
-          refine ⟨⟨th, hth0, hpc⟩, ?_, ?_⟩
+          refine ⟨⟨th, hth0, hpc⟩, by simpa [evsAt] using hevs, ?_, ?_⟩
           · intro j' h1 e he
             cases j' with
             | zero => simp only [evsAt] at he; exact hev e he
@@ -586,13 +613,13 @@ theorem window_gen (t : Nat) (k : Bytes) (r : Option Bytes) (sched : List Nat) :
     (`runSched_cfgs`, `runSched_hist`: these are the configurations and the history `runSched` returns).
 
     If step `j` emits the return of a `get k` of thread `t` with result `r`, then there is a step `i ≤ j` that emitted
-    the call of this `get k` (thread `t` emits nothing strictly between `i` and `j`, so it is the call of this very
-    operation) and a configuration number `m` with `i ≤ m ≤ j` — i.e. a configuration between the block that issued the call
-    and the block that issued the return — whose logical value of `k` is exactly `r`. -/
+    the call of this very operation (`CallRet`) and a configuration number `m` with `i ≤ m ≤ j` — i.e. a configuration
+    between the block that issued the call and the block that issued the return — whose logical value of `k` is exactly `r`.
+    (No assumption on `maxBatch`: it also holds for `maxBatch = 0`, where every bump flushes.) -/
 theorem get_window (maxBatch : Nat) (progs : List (List Op)) (sched : List Nat) (j t : Nat) (k : Bytes)
     (r : Option Bytes) (hret : Ev.ret t (.get k) r ∈ evsAt (Cfg.init maxBatch progs) sched j) :
-    ∃ i m, i ≤ m ∧ m ≤ j ∧ Ev.call t (.get k) ∈ evsAt (Cfg.init maxBatch progs) sched i ∧
-      Quiet (Cfg.init maxBatch progs) sched t i j ∧ r = (cfgAt (Cfg.init maxBatch progs) sched m).abs k := by
+    ∃ i m, i ≤ m ∧ m ≤ j ∧ CallRet (Cfg.init maxBatch progs) sched t k r i j ∧
+      r = (cfgAt (Cfg.init maxBatch progs) sched m).abs k := by
   rcases window_gen t k r sched _ j (Inv.init maxBatch progs) hret with h | ⟨⟨th, hth, hpc⟩, _, _⟩
   · exact h
   · exfalso
@@ -603,5 +630,597 @@ theorem get_window (maxBatch : Nat) (progs : List (List Op)) (sched : List Nat) 
       simp only [hp, Option.map_some, Option.some.injEq] at hth
       subst hth
       simp at hpc
+
+/-! ### corollaries: stable windows, read-after-write, monotone reads -/
+
+/-- every step of a run from a reachable configuration is one of the cases of `Step` (past the end of the schedule: `skip`) -/
+theorem step_at (sched : List Nat) : ∀ (c : Cfg) (m : Nat), Inv c →
+    ∃ s, Step (cfgAt c sched m) s (cfgAt c sched (m + 1)) (evsAt c sched m) := by
+  induction sched with
+  | nil => intro c m _; exact ⟨0, Step.skip⟩
+  | cons t rest ih =>
+    intro c m hi
+    cases m with
+    | zero =>
+      refine ⟨t, ?_⟩
+      simp only [cfgAt, evsAt, cfgAt_zero]
+      exact step_spec c t hi.wf
+    | succ m =>
+      simp only [cfgAt, evsAt]
+      exact ih _ m (hi.step t)
+
+/-- the event is the first block of a write to key `k` -/
+def Ev.writesKey (k : Bytes) : Ev → Prop
+  | .call _ (.put k' _) => k' = k
+  | .call _ (.rm k') => k' = k
+  | _ => False
+
+/-- no write to `k` takes effect at the steps `a ≤ · < b` -/
+def NoWrite (c : Cfg) (sched : List Nat) (k : Bytes) (a b : Nat) : Prop :=
+  ∀ m, a ≤ m → m < b → ∀ e ∈ evsAt c sched m, ¬ e.writesKey k
+
+theorem Step.abs_put {c c' : Cfg} {s : Nat} {evs : List Ev} (h : Step c s c' evs) (hc : CInv c.p) {t : Nat}
+    {k v : Bytes} (he : Ev.call t (.put k v) ∈ evs) : c'.abs k = some v := by
+  cases h with
+  | put th k' v' rest h1 h2 hpc htodo =>
+    simp only [List.mem_singleton, Ev.call.injEq, Op.put.injEq] at he
+    obtain ⟨_, hk, hv⟩ := he
+    subst hk hv
+    show (batchPut c.p k v).abs k = some v
+    rw [abs_batchPut _ _ _ _ hc, if_pos rfl]
+  | _ => simp at he
+
+theorem Step.abs_rm {c c' : Cfg} {s : Nat} {evs : List Ev} (h : Step c s c' evs) (hc : CInv c.p) {t : Nat}
+    {k : Bytes} (he : Ev.call t (.rm k) ∈ evs) : c'.abs k = none := by
+  cases h with
+  | rm th k' rest h1 h2 hpc htodo =>
+    simp only [List.mem_singleton, Ev.call.injEq, Op.rm.injEq] at he
+    obtain ⟨_, hk⟩ := he
+    subst hk
+    show (batchDelete c.p k).abs k = none
+    rw [abs_batchDelete _ _ _ hc, if_pos rfl]
+  | _ => simp at he
+
+/-- the logical value of a key changes only at the first block of a write to that key -/
+theorem Step.abs_same {c c' : Cfg} {s : Nat} {evs : List Ev} (h : Step c s c' evs) (hc : CInv c.p) {k : Bytes}
+    (hno : ∀ e ∈ evs, ¬ e.writesKey k) : c'.abs k = c.abs k := by
+  cases h with
+  | timer _ => exact abs_flush' _ k hc
+  | skip => rfl
+  | bump th op h1 h2 hpc hw => exact abs_bump' _ k hc
+  | retDb th k' h1 h2 hpc => rfl
+  | put th k' v rest h1 h2 hpc htodo =>
+    have hne : k ≠ k' := fun e => hno _ (List.mem_singleton.mpr rfl) (by simp [Ev.writesKey, e])
+    show (batchPut c.p k' v).abs k = c.p.abs k
+    rw [abs_batchPut _ _ _ _ hc, if_neg hne]
+  | rm th k' rest h1 h2 hpc htodo =>
+    have hne : k ≠ k' := fun e => hno _ (List.mem_singleton.mpr rfl) (by simp [Ev.writesKey, e])
+    show (batchDelete c.p k').abs k = c.p.abs k
+    rw [abs_batchDelete _ _ _ hc, if_neg hne]
+  | getHit th k' rest r h1 h2 hpc htodo hr => rfl
+  | getMiss th k' rest h1 h2 hpc htodo hr => rfl
+
+theorem abs_after_put {c : Cfg} (hi : Inv c) (sched : List Nat) {m t : Nat} {k v : Bytes}
+    (he : Ev.call t (.put k v) ∈ evsAt c sched m) : (cfgAt c sched (m + 1)).abs k = some v := by
+  obtain ⟨s, hs⟩ := step_at sched c m hi
+  exact hs.abs_put (hi.cfgAt sched m).cinv he
+
+theorem abs_after_rm {c : Cfg} (hi : Inv c) (sched : List Nat) {m t : Nat} {k : Bytes}
+    (he : Ev.call t (.rm k) ∈ evsAt c sched m) : (cfgAt c sched (m + 1)).abs k = none := by
+  obtain ⟨s, hs⟩ := step_at sched c m hi
+  exact hs.abs_rm (hi.cfgAt sched m).cinv he
+
+/-- between writes to `k` the logical value of `k` is constant — whatever flushes, bumps and reads happen -/
+theorem abs_const {c : Cfg} (hi : Inv c) (sched : List Nat) (k : Bytes) (a b : Nat) (hab : a ≤ b)
+    (hno : NoWrite c sched k a b) : (cfgAt c sched b).abs k = (cfgAt c sched a).abs k := by
+  induction b with
+  | zero =>
+    have : a = 0 := by omega
+    subst this; rfl
+  | succ b ih =>
+    by_cases hb : a = b + 1
+    · subst hb; rfl
+    · have hab' : a ≤ b := by omega
+      obtain ⟨s, hs⟩ := step_at sched c b hi
+      rw [hs.abs_same (hi.cfgAt sched b).cinv (hno b hab' (by omega))]
+      exact ih hab' (fun m h1 h2 => hno m h1 (by omega))
+
+/-- **corollary 1 (stable window).**  If the logical value of `k` is the same value `a` in every configuration of the
+    window of a `get k`, the get returns `a`. -/
+theorem get_stable (maxBatch : Nat) (progs : List (List Op)) (sched : List Nat) (j t : Nat) (k : Bytes)
+    (r : Option Bytes) (hret : Ev.ret t (.get k) r ∈ evsAt (Cfg.init maxBatch progs) sched j) :
+    ∃ i, CallRet (Cfg.init maxBatch progs) sched t k r i j ∧
+      ∀ a, (∀ m, i ≤ m → m ≤ j → (cfgAt (Cfg.init maxBatch progs) sched m).abs k = a) → r = a := by
+  obtain ⟨i, m, him, hmj, hcr, hr⟩ := get_window maxBatch progs sched j t k r hret
+  exact ⟨i, hcr, fun a ha => by rw [hr]; exact ha m him hmj⟩
+
+/-- **corollary 2 (no overlapping write).**  If no write to `k` takes effect between the call step and the return step of
+    a `get k`, it returns the logical value at its call (= at its return). -/
+theorem get_no_overlap (maxBatch : Nat) (progs : List (List Op)) (sched : List Nat) (j t : Nat) (k : Bytes)
+    (r : Option Bytes) (hret : Ev.ret t (.get k) r ∈ evsAt (Cfg.init maxBatch progs) sched j) :
+    ∃ i, CallRet (Cfg.init maxBatch progs) sched t k r i j ∧
+      (NoWrite (Cfg.init maxBatch progs) sched k i j → r = (cfgAt (Cfg.init maxBatch progs) sched i).abs k) := by
+  obtain ⟨i, m, him, hmj, hcr, hr⟩ := get_window maxBatch progs sched j t k r hret
+  refine ⟨i, hcr, fun hno => ?_⟩
+  rw [hr]
+  exact abs_const (Inv.init maxBatch progs) sched k i m him (fun x h1 h2 => hno x h1 (by omega))
+
+/-- **corollary 3 (read-after-write).**  If a write to `k` took effect (first block at step `w`) before the call step `i`
+    of a `get k` — in particular if the write returned before the get was called — and no other write to `k` takes effect
+    from then until the get returns, the get returns the value written (`none` for a remove). -/
+theorem read_after_write (maxBatch : Nat) (progs : List (List Op)) (sched : List Nat) (j t : Nat) (k : Bytes)
+    (r : Option Bytes) (hret : Ev.ret t (.get k) r ∈ evsAt (Cfg.init maxBatch progs) sched j) :
+    ∃ i, CallRet (Cfg.init maxBatch progs) sched t k r i j ∧
+      (∀ w t' v, w < i → Ev.call t' (.put k v) ∈ evsAt (Cfg.init maxBatch progs) sched w →
+          NoWrite (Cfg.init maxBatch progs) sched k (w + 1) j → r = some v) ∧
+      (∀ w t', w < i → Ev.call t' (.rm k) ∈ evsAt (Cfg.init maxBatch progs) sched w →
+          NoWrite (Cfg.init maxBatch progs) sched k (w + 1) j → r = none) := by
+  obtain ⟨i, m, him, hmj, hcr, hr⟩ := get_window maxBatch progs sched j t k r hret
+  have hi := Inv.init maxBatch progs
+  refine ⟨i, hcr, ?_, ?_⟩
+  · intro w t' v hw hput hno
+    rw [hr, abs_const hi sched k (w + 1) m (by omega) (fun x h1 h2 => hno x h1 (by omega))]
+    exact abs_after_put hi sched hput
+  · intro w t' hw hrm hno
+    rw [hr, abs_const hi sched k (w + 1) m (by omega) (fun x h1 h2 => hno x h1 (by omega))]
+    exact abs_after_rm hi sched hrm
+
+/-- **corollary 4 (reads never go backwards).**  Two completed reads observe the logical map at configurations `m₁`, `m₂`
+    inside their respective windows; if the first returned (step `j₁`) before the second was called (step `i₂`) then
+    `m₁ < m₂`: the second read observes a later state of the logical map than the first. -/
+theorem reads_monotone (maxBatch : Nat) (progs : List (List Op)) (sched : List Nat) (j₁ t₁ j₂ t₂ : Nat)
+    (k₁ k₂ : Bytes) (r₁ r₂ : Option Bytes)
+    (h₁ : Ev.ret t₁ (.get k₁) r₁ ∈ evsAt (Cfg.init maxBatch progs) sched j₁)
+    (h₂ : Ev.ret t₂ (.get k₂) r₂ ∈ evsAt (Cfg.init maxBatch progs) sched j₂) :
+    ∃ m₁ i₂ m₂, m₁ ≤ j₁ ∧ i₂ ≤ m₂ ∧ m₂ ≤ j₂ ∧ CallRet (Cfg.init maxBatch progs) sched t₂ k₂ r₂ i₂ j₂ ∧
+      r₁ = (cfgAt (Cfg.init maxBatch progs) sched m₁).abs k₁ ∧
+      r₂ = (cfgAt (Cfg.init maxBatch progs) sched m₂).abs k₂ ∧
+      (j₁ < i₂ → m₁ < m₂) := by
+  obtain ⟨i1, m1, _, hmj1, _, hr1⟩ := get_window maxBatch progs sched j₁ t₁ k₁ r₁ h₁
+  obtain ⟨i2, m2, him2, hmj2, hcr2, hr2⟩ := get_window maxBatch progs sched j₂ t₂ k₂ r₂ h₂
+  exact ⟨m1, i2, m2, hmj1, him2, hmj2, hcr2, hr1, hr2, fun h => by omega⟩
+
+/-! ## (C) linearization points and the sequential replay -/
+
+/-- the sequential specification: a plain map -/
+def specApply (m : Bytes → Option Bytes) : Op → (Bytes → Option Bytes)
+  | .put k v => fun x => if x = k then some v else m x
+  | .rm k => fun x => if x = k then none else m x
+  | .get _ => m
+
+def specRes (m : Bytes → Option Bytes) : Op → Option Bytes
+  | .get k => m k
+  | _ => none
+
+/-- an operation placed at its linearization point -/
+structure LinOp where
+  pt : Nat                 -- number of the configuration at which (reads) / step at which (writes) it takes effect
+  thread : Nat
+  step : Nat               -- identifies the operation: the step that emitted its return (reads) / its call (writes)
+  op : Op
+  res : Option Bytes       -- the result it returned in the concurrent run (writes: none)
+
+/-- executing the operations one after the other on the plain map `m` produces exactly the recorded results -/
+def SeqOK : (Bytes → Option Bytes) → List LinOp → Prop
+  | _, [] => True
+  | m, e :: rest => e.res = specRes m e.op ∧ SeqOK (specApply m e.op) rest
+
+/-- the map after executing the operations sequentially -/
+def finalMap (m : Bytes → Option Bytes) (l : List LinOp) : Bytes → Option Bytes :=
+  l.foldl (fun m e => specApply m e.op) m
+
+theorem SeqOK_append (l1 l2 : List LinOp) : ∀ m, SeqOK m (l1 ++ l2) ↔ SeqOK m l1 ∧ SeqOK (finalMap m l1) l2 := by
+  induction l1 with
+  | nil => intro m; simp [SeqOK, finalMap]
+  | cons e r ih =>
+    intro m
+    simp only [List.cons_append, SeqOK, ih, finalMap, List.foldl_cons, and_assoc]
+
+theorem finalMap_append (l1 l2 : List LinOp) (m : Bytes → Option Bytes) :
+    finalMap m (l1 ++ l2) = finalMap (finalMap m l1) l2 := by
+  simp [finalMap, List.foldl_append]
+
+/-- a block of reads that all return the current value -/
+theorem SeqOK_reads (m : Bytes → Option Bytes) (l : List LinOp)
+    (h : ∀ e ∈ l, ∃ k, e.op = .get k ∧ e.res = m k) : SeqOK m l ∧ finalMap m l = m := by
+  induction l with
+  | nil => exact ⟨trivial, rfl⟩
+  | cons e r ih =>
+    obtain ⟨k, hop, hres⟩ := h e (List.mem_cons_self)
+    have ih' := ih (fun e' he' => h e' (List.mem_cons_of_mem _ he'))
+    have hap : specApply m e.op = m := by rw [hop]; rfl
+    refine ⟨⟨by rw [hop]; exact hres, by rw [hap]; exact ih'.1⟩, ?_⟩
+    show finalMap (specApply m e.op) r = m
+    rw [hap]; exact ih'.2
+
+/-- the largest index below `j` with a property -/
+theorem exists_largest (Q : Nat → Prop) (j : Nat) (h : ∃ m, m ≤ j ∧ Q m) :
+    ∃ m, m ≤ j ∧ Q m ∧ ∀ m', m < m' → m' ≤ j → ¬ Q m' := by
+  induction j with
+  | zero =>
+    obtain ⟨m, hm, hq⟩ := h
+    have : m = 0 := by omega
+    subst this
+    exact ⟨0, Nat.le_refl _, hq, fun m' h1 h2 => by omega⟩
+  | succ j ih =>
+    by_cases hq : Q (j + 1)
+    · exact ⟨j + 1, Nat.le_refl _, hq, fun m' h1 h2 => by omega⟩
+    · obtain ⟨m0, hm0, hq0⟩ := h
+      have hm0' : m0 ≤ j := by
+        rcases Nat.lt_or_ge j m0 with hlt | hge
+        · have : m0 = j + 1 := by omega
+          subst this; exact absurd hq0 hq
+        · exact hge
+      obtain ⟨m, hm, hqm, hmax⟩ := ih ⟨m0, hm0', hq0⟩
+      refine ⟨m, by omega, hqm, ?_⟩
+      intro m' h1 h2
+      by_cases hm' : m' = j + 1
+      · subst hm'; exact hq
+      · exact hmax m' h1 (by omega)
+
+/-- `m` is the linearization point of a `get k` that returned `r` at step `j`: the last configuration up to `j` whose
+    logical value of `k` is `r` (by `get_window` it lies inside the window of the get) -/
+def IsPt (c : Cfg) (sched : List Nat) (m j : Nat) (k : Bytes) (r : Option Bytes) : Prop :=
+  m ≤ j ∧ (cfgAt c sched m).abs k = r ∧ ∀ m', m < m' → m' ≤ j → (cfgAt c sched m').abs k ≠ r
+
+/-- writes are linearized at the step of their first block (the step that emits their call event) -/
+def wEntry (m : Nat) : Ev → Option LinOp
+  | .call t op => if op.isWrite then some ⟨m, t, m, op, none⟩ else none
+  | _ => none
+
+open Classical in
+/-- a read returning at step `j` is linearized at configuration `m` iff `IsPt … m j …` -/
+noncomputable def rEntry (c : Cfg) (sched : List Nat) (m j : Nat) : Ev → Option LinOp
+  | .ret t (.get k) r => if IsPt c sched m j k r then some ⟨m, t, j, .get k, r⟩ else none
+  | _ => none
+
+def writesAt (c : Cfg) (sched : List Nat) (m : Nat) : List LinOp := (evsAt c sched m).filterMap (wEntry m)
+
+noncomputable def readsAt (c : Cfg) (sched : List Nat) (m : Nat) : List LinOp :=
+  (List.range sched.length).flatMap fun j => (evsAt c sched j).filterMap (rEntry c sched m j)
+
+/-- the linearization: for every configuration number `m` in turn, first the reads that observe configuration `m`,
+    then the write (if any) whose first block is step `m` -/
+noncomputable def linOf (c : Cfg) (sched : List Nat) : List LinOp :=
+  (List.range (sched.length + 1)).flatMap fun m => readsAt c sched m ++ writesAt c sched m
+
+theorem mem_writesAt {c : Cfg} {sched : List Nat} {m : Nat} {e : LinOp} :
+    e ∈ writesAt c sched m ↔
+      ∃ t op, op.isWrite = true ∧ Ev.call t op ∈ evsAt c sched m ∧ e = ⟨m, t, m, op, none⟩ := by
+  unfold writesAt
+  rw [List.mem_filterMap]
+  constructor
+  · rintro ⟨ev, hev, hw⟩
+    cases ev with
+    | call t op =>
+      simp only [wEntry] at hw
+      split at hw
+      · rename_i hop
+        simp only [Option.some.injEq] at hw
+        exact ⟨t, op, hop, hev, hw.symm⟩
+      · simp at hw
+    | ret t op r => simp [wEntry] at hw
+    | tau t => simp [wEntry] at hw
+  · rintro ⟨t, op, hop, hev, he⟩
+    exact ⟨_, hev, by simp [wEntry, hop, he]⟩
+
+theorem rEntry_some {c : Cfg} {sched : List Nat} {m j : Nat} {ev : Ev} {e : LinOp}
+    (h : rEntry c sched m j ev = some e) :
+    ∃ t k r, ev = .ret t (.get k) r ∧ IsPt c sched m j k r ∧ e = ⟨m, t, j, .get k, r⟩ := by
+  cases ev with
+  | call t op => simp [rEntry] at h
+  | tau t => simp [rEntry] at h
+  | ret t op r =>
+    cases op with
+    | put k v => simp [rEntry] at h
+    | rm k => simp [rEntry] at h
+    | get k =>
+      simp only [rEntry] at h
+      split at h
+      · rename_i hpt
+        simp only [Option.some.injEq] at h
+        exact ⟨t, k, r, rfl, hpt, h.symm⟩
+      · simp at h
+
+theorem mem_readsAt {c : Cfg} {sched : List Nat} {m : Nat} {e : LinOp} :
+    e ∈ readsAt c sched m ↔
+      ∃ j t k r, j < sched.length ∧ Ev.ret t (.get k) r ∈ evsAt c sched j ∧ IsPt c sched m j k r ∧
+        e = ⟨m, t, j, .get k, r⟩ := by
+  unfold readsAt
+  simp only [List.mem_flatMap, List.mem_range, List.mem_filterMap]
+  constructor
+  · rintro ⟨j, hj, ev, hev, hr⟩
+    obtain ⟨t, k, r, rfl, hpt, he⟩ := rEntry_some hr
+    exact ⟨j, t, k, r, hj, hev, hpt, he⟩
+  · rintro ⟨j, t, k, r, hj, hev, hpt, he⟩
+    exact ⟨j, hj, _, hev, by simp [rEntry, hpt, he]⟩
+
+/-- the writes linearized at step `m` turn the logical map before step `m` into the logical map after it -/
+theorem writesAt_spec {c : Cfg} (hi : Inv c) (sched : List Nat) (m : Nat) :
+    SeqOK (cfgAt c sched m).abs (writesAt c sched m) ∧
+    finalMap (cfgAt c sched m).abs (writesAt c sched m) = (cfgAt c sched (m + 1)).abs := by
+  obtain ⟨s, hs⟩ := step_at sched c m hi
+  have hc := (hi.cfgAt sched m).cinv
+  unfold writesAt
+  generalize cfgAt c sched m = c1 at hs hc ⊢
+  generalize cfgAt c sched (m + 1) = c2 at hs ⊢
+  generalize evsAt c sched m = evs at hs ⊢
+  cases hs with
+  | timer _ =>
+    refine ⟨by simp [List.filterMap_cons, wEntry, SeqOK], ?_⟩
+    funext x
+    simp only [List.filterMap_cons, wEntry, List.filterMap_nil, finalMap, List.foldl_nil]
+    exact (abs_flush' _ x hc).symm
+  | skip => exact ⟨by simp [SeqOK], by simp [finalMap]⟩
+  | bump th op h1 h2 hpc hw =>
+    refine ⟨by simp [List.filterMap_cons, wEntry, SeqOK], ?_⟩
+    funext x
+    simp only [List.filterMap_cons, wEntry, List.filterMap_nil, finalMap, List.foldl_nil]
+    exact (abs_bump' _ x hc).symm
+  | retDb th k h1 h2 hpc => exact ⟨by simp [List.filterMap_cons, wEntry, SeqOK], by simp [List.filterMap_cons, wEntry, finalMap]; rfl⟩
+  | put th k v rest h1 h2 hpc htodo =>
+    refine ⟨by simp [wEntry, SeqOK, Op.isWrite, specRes], ?_⟩
+    funext x
+    simp only [List.filterMap_cons, wEntry, Op.isWrite, if_true, List.filterMap_nil, finalMap, List.foldl_cons,
+      List.foldl_nil, specApply]
+    exact (abs_batchPut _ k x v hc).symm
+  | rm th k rest h1 h2 hpc htodo =>
+    refine ⟨by simp [wEntry, SeqOK, Op.isWrite, specRes], ?_⟩
+    funext x
+    simp only [List.filterMap_cons, wEntry, Op.isWrite, if_true, List.filterMap_nil, finalMap, List.foldl_cons,
+      List.foldl_nil, specApply]
+    exact (abs_batchDelete _ k x hc).symm
+  | getHit th k rest r h1 h2 hpc htodo hr =>
+    exact ⟨by simp [List.filterMap_cons, wEntry, SeqOK, Op.isWrite], by simp [List.filterMap_cons, wEntry, finalMap, Op.isWrite]; rfl⟩
+  | getMiss th k rest h1 h2 hpc htodo hr =>
+    exact ⟨by simp [wEntry, SeqOK, Op.isWrite], by simp [wEntry, finalMap, Op.isWrite]; rfl⟩
+
+/-- the reads linearized at configuration `m` all return its logical value, and change nothing -/
+theorem readsAt_spec (c : Cfg) (sched : List Nat) (m : Nat) :
+    SeqOK (cfgAt c sched m).abs (readsAt c sched m) ∧
+    finalMap (cfgAt c sched m).abs (readsAt c sched m) = (cfgAt c sched m).abs := by
+  apply SeqOK_reads
+  intro e he
+  obtain ⟨j, t, k, r, _, _, hpt, rfl⟩ := mem_readsAt.mp he
+  exact ⟨k, rfl, hpt.2.1.symm⟩
+
+/-- replaying the linearization up to (excluding) point `N` yields the logical map of configuration `N` -/
+theorem lin_prefix {c : Cfg} (hi : Inv c) (sched : List Nat) (N : Nat) :
+    SeqOK c.abs ((List.range N).flatMap fun m => readsAt c sched m ++ writesAt c sched m) ∧
+    finalMap c.abs ((List.range N).flatMap fun m => readsAt c sched m ++ writesAt c sched m) =
+      (cfgAt c sched N).abs := by
+  induction N with
+  | zero => simp [SeqOK, finalMap, cfgAt_zero]
+  | succ N ih =>
+    rw [List.range_succ, List.flatMap_append]
+    simp only [List.flatMap_cons, List.flatMap_nil, List.append_nil]
+    have hr := readsAt_spec c sched N
+    have hw := writesAt_spec hi sched N
+    refine ⟨?_, ?_⟩
+    · rw [SeqOK_append, ih.2, SeqOK_append, hr.2]
+      exact ⟨ih.1, hr.1, hw.1⟩
+    · rw [finalMap_append, ih.2, finalMap_append, hr.2, hw.2]
+
+theorem init_abs (maxBatch : Nat) (progs : List (List Op)) : (Cfg.init maxBatch progs).abs = fun _ => none := by
+  funext k
+  simp [Cfg.abs, Cfg.init, P.abs, P.init, alookup]
+
+theorem evsAt_lt {c : Cfg} {sched : List Nat} {j : Nat} {e : Ev} (h : e ∈ evsAt c sched j) : j < sched.length := by
+  rcases Nat.lt_or_ge j sched.length with hlt | hge
+  · exact hlt
+  · rw [evsAt_of_le sched c j hge] at h
+    simp at h
+
+theorem mem_linOf {c : Cfg} {sched : List Nat} {e : LinOp} :
+    e ∈ linOf c sched ↔ ∃ m, m < sched.length + 1 ∧ (e ∈ readsAt c sched m ∨ e ∈ writesAt c sched m) := by
+  unfold linOf
+  simp only [List.mem_flatMap, List.mem_range, List.mem_append]
+
+theorem linOf_sorted (c : Cfg) (sched : List Nat) : (linOf c sched).Pairwise (fun a b => a.pt ≤ b.pt) := by
+  have hpt : ∀ m e, e ∈ readsAt c sched m ++ writesAt c sched m → e.pt = m := by
+    intro m e he
+    rcases List.mem_append.mp he with he | he
+    · obtain ⟨j, t, k, r, _, _, _, rfl⟩ := mem_readsAt.mp he; rfl
+    · obtain ⟨t, op, _, _, rfl⟩ := mem_writesAt.mp he; rfl
+  unfold linOf
+  rw [List.pairwise_flatMap]
+  constructor
+  · intro m _
+    rw [List.pairwise_iff_forall_sublist]
+    intro a b hab
+    have ha := hpt m a (hab.subset (by simp))
+    have hb := hpt m b (hab.subset (by simp))
+    omega
+  · refine List.Pairwise.imp ?_ (List.pairwise_lt_range (n := sched.length + 1))
+    intro a b hab x hx y hy
+    rw [hpt a x hx, hpt b y hy]
+    omega
+
+/-! ### every operation is linearized once -/
+
+/-- a block emits nothing, one event, or the call and the return of a `get` answered by the batch -/
+theorem Step.shape {c c' : Cfg} {s : Nat} {evs : List Ev} (h : Step c s c' evs) :
+    evs = [] ∨ (∃ e, evs = [e]) ∨ ∃ t k r, evs = [.call t (.get k), .ret t (.get k) r] := by
+  cases h with
+  | skip => exact Or.inl rfl
+  | getHit th k rest r h1 h2 hpc htodo hr => exact Or.inr (Or.inr ⟨_, _, _, rfl⟩)
+  | _ => exact Or.inr (Or.inl ⟨_, rfl⟩)
+
+theorem shape_at {c : Cfg} (hi : Inv c) (sched : List Nat) (j : Nat) :
+    evsAt c sched j = [] ∨ (∃ e, evsAt c sched j = [e]) ∨
+      ∃ t k r, evsAt c sched j = [.call t (.get k), .ret t (.get k) r] := by
+  obtain ⟨s, hs⟩ := step_at sched c j hi
+  exact hs.shape
+
+theorem ret_unique {c : Cfg} (hi : Inv c) (sched : List Nat) {j t t' : Nat} {k k' : Bytes} {r r' : Option Bytes}
+    (h : Ev.ret t (.get k) r ∈ evsAt c sched j) (h' : Ev.ret t' (.get k') r' ∈ evsAt c sched j) :
+    t = t' ∧ k = k' ∧ r = r' := by
+  rcases shape_at hi sched j with he | ⟨e, he⟩ | ⟨t0, k0, r0, he⟩ <;> rw [he] at h h'
+  · simp at h
+  · simp only [List.mem_singleton] at h h'
+    rw [← h'] at h
+    simpa using h
+  · simp only [List.mem_cons, List.mem_nil_iff, or_false, reduceCtorEq, false_or, Ev.ret.injEq, Op.get.injEq] at h h'
+    obtain ⟨a1, a2, a3⟩ := h
+    obtain ⟨b1, b2, b3⟩ := h'
+    subst a1 a2 a3 b1 b2 b3
+    exact ⟨rfl, rfl, rfl⟩
+
+theorem no_write_and_ret {c : Cfg} (hi : Inv c) (sched : List Nat) {j t t' : Nat} {op : Op} {k : Bytes}
+    {r : Option Bytes} (hop : op.isWrite = true) (h : Ev.call t op ∈ evsAt c sched j)
+    (h' : Ev.ret t' (.get k) r ∈ evsAt c sched j) : False := by
+  rcases shape_at hi sched j with he | ⟨e, he⟩ | ⟨t0, k0, r0, he⟩ <;> rw [he] at h h'
+  · simp at h
+  · simp only [List.mem_singleton] at h h'
+    rw [← h'] at h
+    simp at h
+  · simp only [List.mem_cons, List.mem_nil_iff, or_false, reduceCtorEq, or_false, Ev.call.injEq] at h
+    obtain ⟨_, a2⟩ := h
+    subst a2
+    simp [Op.isWrite] at hop
+
+theorem pairwise_of_length_le_one {α : Type} (R : α → α → Prop) (l : List α) (h : l.length ≤ 1) : l.Pairwise R := by
+  match l, h with
+  | [], _ => exact List.Pairwise.nil
+  | [a], _ => exact List.pairwise_singleton R a
+  | _ :: _ :: _, h => simp at h
+
+theorem writesAt_length {c : Cfg} (hi : Inv c) (sched : List Nat) (m : Nat) : (writesAt c sched m).length ≤ 1 := by
+  unfold writesAt
+  rcases shape_at hi sched m with he | ⟨e, he⟩ | ⟨t0, k0, r0, he⟩ <;> rw [he]
+  · simp
+  · exact Nat.le_trans (List.length_filterMap_le _ _) (by simp)
+  · simp [List.filterMap_cons, wEntry, Op.isWrite]
+
+theorem readsAt_inner_length {c : Cfg} (hi : Inv c) (sched : List Nat) (m j : Nat) :
+    ((evsAt c sched j).filterMap (rEntry c sched m j)).length ≤ 1 := by
+  rcases shape_at hi sched j with he | ⟨e, he⟩ | ⟨t0, k0, r0, he⟩ <;> rw [he]
+  · simp
+  · exact Nat.le_trans (List.length_filterMap_le _ _) (by simp)
+  · have : [Ev.call t0 (.get k0), Ev.ret t0 (.get k0) r0].filterMap (rEntry c sched m j) =
+        [Ev.ret t0 (.get k0) r0].filterMap (rEntry c sched m j) := by
+      simp [List.filterMap_cons, rEntry]
+    rw [this]
+    exact Nat.le_trans (List.length_filterMap_le _ _) (by simp)
+
+theorem IsPt.unique {c : Cfg} {sched : List Nat} {m m' j : Nat} {k : Bytes} {r : Option Bytes}
+    (h : IsPt c sched m j k r) (h' : IsPt c sched m' j k r) : m = m' := by
+  rcases Nat.lt_trichotomy m m' with hlt | heq | hgt
+  · exact absurd h'.2.1 (h.2.2 m' hlt h'.1)
+  · exact heq
+  · exact absurd h.2.1 (h'.2.2 m hgt h.1)
+
+/-- no two entries of the linearization stand for the same operation (an operation is identified by the step that
+    emitted its return event — reads — or its call event — writes; a step emits events of one operation only) -/
+theorem linOf_distinct {c : Cfg} (hi : Inv c) (sched : List Nat) :
+    (linOf c sched).Pairwise (fun a b => a.step ≠ b.step) := by
+  unfold linOf
+  rw [List.pairwise_flatMap]
+  constructor
+  · intro m _
+    rw [List.pairwise_append]
+    refine ⟨?_, pairwise_of_length_le_one _ _ (writesAt_length hi sched m), ?_⟩
+    · unfold readsAt
+      rw [List.pairwise_flatMap]
+      refine ⟨fun j _ => pairwise_of_length_le_one _ _ (readsAt_inner_length hi sched m j), ?_⟩
+      refine List.Pairwise.imp ?_ (List.pairwise_lt_range (n := sched.length))
+      intro j j' hjj x hx y hy
+      obtain ⟨ev, _, hev⟩ := List.mem_filterMap.mp hx
+      obtain ⟨ev', _, hev'⟩ := List.mem_filterMap.mp hy
+      obtain ⟨_, _, _, _, _, rfl⟩ := rEntry_some hev
+      obtain ⟨_, _, _, _, _, rfl⟩ := rEntry_some hev'
+      dsimp only
+      omega
+    · intro a ha b hb
+      obtain ⟨j, t, k, r, _, hret, _, rfl⟩ := mem_readsAt.mp ha
+      obtain ⟨t', op, hop, hcall, rfl⟩ := mem_writesAt.mp hb
+      intro hjm
+      dsimp only at hjm
+      subst hjm
+      exact no_write_and_ret hi sched hop hcall hret
+  · refine List.Pairwise.imp ?_ (List.pairwise_lt_range (n := sched.length + 1))
+    intro m m' hmm x hx y hy hxy
+    rcases List.mem_append.mp hx with hx | hx <;> rcases List.mem_append.mp hy with hy | hy
+    · obtain ⟨j, t, k, r, _, hret, hpt, rfl⟩ := mem_readsAt.mp hx
+      obtain ⟨j', t', k', r', _, hret', hpt', rfl⟩ := mem_readsAt.mp hy
+      dsimp only at hxy
+      subst hxy
+      obtain ⟨_, hk, hr⟩ := ret_unique hi sched hret hret'
+      subst hk hr
+      have := hpt.unique hpt'
+      omega
+    · obtain ⟨j, t, k, r, _, hret, hpt, rfl⟩ := mem_readsAt.mp hx
+      obtain ⟨t', op, hop, hcall, rfl⟩ := mem_writesAt.mp hy
+      dsimp only at hxy
+      subst hxy
+      exact no_write_and_ret hi sched hop hcall hret
+    · obtain ⟨t', op, hop, hcall, rfl⟩ := mem_writesAt.mp hx
+      obtain ⟨j, t, k, r, _, hret, hpt, rfl⟩ := mem_readsAt.mp hy
+      dsimp only at hxy
+      subst hxy
+      exact no_write_and_ret hi sched hop hcall hret
+    · obtain ⟨t, op, _, _, rfl⟩ := mem_writesAt.mp hx
+      obtain ⟨t', op', _, _, rfl⟩ := mem_writesAt.mp hy
+      dsimp only at hxy
+      omega
+
+/-- **C11, linearizability.**  For every run of any programs under any schedule there is a list `lin` of operations, each
+    tagged with a linearization point, such that
+
+    1. `lin` is ordered by linearization point;
+    2. executing `lin` sequentially on a plain map, starting from the empty map, reproduces every recorded result;
+    3. every completed `get` (return event at step `j`, call event at step `i`) is in `lin` with its returned value, at a
+       point `m` with `i ≤ m ≤ j` (reads answered by the batch: `m = i = j`, their only block; reads that missed: the last
+       configuration of the window whose logical value is the value returned);
+    4. every write whose first block was executed — completed or still pending at the end of the schedule — is in `lin` at the
+       step `i` of its first block, the step that emitted its call event (its return comes at a later step);
+    5. `lin` contains nothing else: every entry is such a write or such a completed read (`e.step` is the step that emitted
+       the write's call resp. the read's return);
+    6. no operation is linearized twice: the entries have pairwise different `step`s (a step emits events of one operation
+       only, so `step` identifies the operation).
+
+    Because points lie between call and return and `lin` is sorted by point, an operation that returned before another one was
+    called precedes it in `lin` (real-time order).  Among operations with the same point `m` the reads (which observe
+    configuration `m`) come before the write (which is step `m` and produces configuration `m+1`). -/
+theorem linearizable (maxBatch : Nat) (progs : List (List Op)) (sched : List Nat) :
+    ∃ lin : List LinOp,
+      lin.Pairwise (fun a b => a.pt ≤ b.pt) ∧
+      SeqOK (fun _ => none) lin ∧
+      (∀ j t k r, Ev.ret t (.get k) r ∈ evsAt (Cfg.init maxBatch progs) sched j →
+        ∃ i m, i ≤ m ∧ m ≤ j ∧ CallRet (Cfg.init maxBatch progs) sched t k r i j ∧
+          (⟨m, t, j, .get k, r⟩ : LinOp) ∈ lin) ∧
+      (∀ i t op, op.isWrite = true → Ev.call t op ∈ evsAt (Cfg.init maxBatch progs) sched i →
+        (⟨i, t, i, op, none⟩ : LinOp) ∈ lin) ∧
+      (∀ e ∈ lin,
+        (e.op.isWrite = true ∧ e.res = none ∧ e.step = e.pt ∧
+          Ev.call e.thread e.op ∈ evsAt (Cfg.init maxBatch progs) sched e.step) ∨
+        (∃ k, e.op = .get k ∧ e.pt ≤ e.step ∧
+          Ev.ret e.thread (.get k) e.res ∈ evsAt (Cfg.init maxBatch progs) sched e.step)) ∧
+      lin.Pairwise (fun a b => a.step ≠ b.step) := by
+  have hi := Inv.init maxBatch progs
+  refine ⟨linOf (Cfg.init maxBatch progs) sched, linOf_sorted _ _, ?_, ?_, ?_, ?_, linOf_distinct hi sched⟩
+  · have := (lin_prefix hi sched (sched.length + 1)).1
+    rw [init_abs] at this
+    exact this
+  · intro j t k r hret
+    obtain ⟨i, m0, him, hmj, hcr, hr⟩ := get_window maxBatch progs sched j t k r hret
+    obtain ⟨m, hm, hqm, hmax⟩ := exists_largest
+      (fun m => (cfgAt (Cfg.init maxBatch progs) sched m).abs k = r) j ⟨m0, hmj, hr.symm⟩
+    have hm0 : m0 ≤ m := by
+      rcases Nat.lt_or_ge m m0 with hlt | hge
+      · exact absurd hr.symm (hmax m0 hlt hmj)
+      · exact hge
+    have hj := evsAt_lt hret
+    refine ⟨i, m, by omega, hm, hcr, mem_linOf.mpr ⟨m, by omega, Or.inl ?_⟩⟩
+    exact mem_readsAt.mpr ⟨j, t, k, r, hj, hret, ⟨hm, hqm, hmax⟩, rfl⟩
+  · intro i t op hop hcall
+    have hlt := evsAt_lt hcall
+    exact mem_linOf.mpr ⟨i, by omega, Or.inr (mem_writesAt.mpr ⟨t, op, hop, hcall, rfl⟩)⟩
+  · intro e he
+    obtain ⟨m, _, he | he⟩ := mem_linOf.mp he
+    · obtain ⟨j, t, k, r, _, hret, hpt, rfl⟩ := mem_readsAt.mp he
+      exact Or.inr ⟨k, rfl, hpt.1, hret⟩
+    · obtain ⟨t, op, hop, hcall, rfl⟩ := mem_writesAt.mp he
+      exact Or.inl ⟨hop, rfl, rfl, hcall⟩
 
 end SV.Conc
